@@ -17,7 +17,7 @@ pub const CHECK: Check = Check { id: "C16", level: "exploration", flavours: &["p
 
 const RULE: &str = "cases = (set of member names built from a path grammar: components normal / '.' / '..' / empty / 255 and 256 bytes / \
 unicode / spaces / leading '-', absolute or relative, trailing separators, absolute names pointing into the monitored sandbox \
-and '..' chains reaching its canary directory, names going through a symlink that already exists in the output directory; in a third of the cases a longer stale file \
+and '..' chains reaching its canary directory, names going through a symlink that already exists in the output directory, up to two siblings of existing members (same containing directory); in a third of the cases a longer stale file \
 already sits where a benign member goes) x \
 extraction form {whole archive (linear), one listed name, glob '*', glob prefix} x output argument {relative, './rel', \
 absolute, nested not-yet-existing, through a '..' component, through a symbolic link to the output directory} x layers; archives are written with the library API (arbitrary names). Oracle: a recursive \
@@ -161,6 +161,18 @@ fn oracle(c: &Case, st: &mut Stats) -> Result<(), String> {
     }
     if names.is_empty() {
         names.push("only".into());
+    }
+    // siblings: up to two further members in the same containing directory as an existing member (whatever that
+    // directory is: beneath the output directory, behind a link, reached through '..')
+    for i in 0..((c.seed / 3 % 3) as usize).min(names.len()) {
+        let base = names[i].trim_end_matches('/').to_string();
+        let sib = match base.rfind('/') {
+            Some(p) => format!("{}/sibling{i}", &base[..p]),
+            None => format!("sibling{i}"),
+        };
+        if !names.contains(&sib) && sib.len() <= 65536 {
+            names.push(sib);
+        }
     }
     // archive through the library API
     let keys = prog::keys_for(c.seed as u64, 1, 0);
